@@ -394,6 +394,10 @@ func runC08(c *Ctx) {
 }
 
 func c08DecoderFor(c *Ctx) {
+	withInline(func() { c08DecoderForIn(c) }, c.P.Func("lib", "DecoderFor"))
+}
+
+func c08DecoderForIn(c *Ctx) {
 	const rule = "DecoderFor uses its reader only as the source of io.TeeReader(r, &buf) placed after a reader over buf's contents, or after buf itself in the MultiReader handed to the chosen factory; buf is never reset; the decoder is returned only when the trial decode succeeded and is built by the factory that succeeded"
 	fn := c.P.Func("lib", "DecoderFor")
 	key := "sniff-replay:lib.DecoderFor"
@@ -415,7 +419,7 @@ func c08DecoderFor(c *Ctx) {
 	}
 	isBufIface := func(v ssa.Value) bool {
 		mi, ok := v.(*ssa.MakeInterface)
-		return ok && mi.X == ssa.Value(buf)
+		return ok && rootVal(mi.X) == ssa.Value(buf)
 	}
 	isBufBytesReader := func(v ssa.Value) bool {
 		mi, ok := v.(*ssa.MakeInterface)
@@ -427,7 +431,7 @@ func c08DecoderFor(c *Ctx) {
 			return false
 		}
 		b, ok := call.Call.Args[0].(*ssa.Call)
-		return ok && callName(&b.Call) == "(*bytes.Buffer).Bytes" && b.Call.Args[0] == ssa.Value(buf)
+		return ok && callName(&b.Call) == "(*bytes.Buffer).Bytes" && rootVal(b.Call.Args[0]) == ssa.Value(buf)
 	}
 	// classify every use of r
 	type mr struct {
@@ -435,7 +439,7 @@ func c08DecoderFor(c *Ctx) {
 		elems []ssa.Value
 	}
 	var multis []mr
-	eachInstr(fn, func(i ssa.Instruction) {
+	eachInstrI(fn, func(i ssa.Instruction) {
 		if call, ok := i.(*ssa.Call); ok && callName(&call.Call) == "io.MultiReader" {
 			if el, ok := sliceElems(call.Call.Args[0]); ok {
 				multis = append(multis, mr{call, el})
@@ -446,10 +450,35 @@ func c08DecoderFor(c *Ctx) {
 	})
 	var tees []*ssa.Call
 	problems := []string{}
-	for _, ref := range refs(r) {
+	// usesOf: the instructions that use v, followed into helpers with a single call site (the
+	// helper's parameter stands for v there)
+	var usesOf func(v ssa.Value, depth int) []ssa.Instruction
+	usesOf = func(v ssa.Value, depth int) []ssa.Instruction {
+		var out []ssa.Instruction
+		for _, ref := range refs(v) {
+			if call, isCall := ref.(*ssa.Call); isCall && depth < 3 {
+				if h := call.Call.StaticCallee(); h != nil && singleSite(c.P, h) == call {
+					followed := false
+					for k, a := range call.Call.Args {
+						if a == v && k < len(h.Params) {
+							out = append(out, usesOf(h.Params[k], depth+1)...)
+							followed = true
+						}
+					}
+					if followed {
+						c.Saw("function " + shortFn(h))
+						continue
+					}
+				}
+			}
+			out = append(out, ref)
+		}
+		return out
+	}
+	for _, ref := range usesOf(r, 0) {
 		switch x := ref.(type) {
 		case *ssa.Call:
-			if callName(&x.Call) == "io.TeeReader" && x.Call.Args[0] == ssa.Value(r) && isBufIface(x.Call.Args[1]) {
+			if callName(&x.Call) == "io.TeeReader" && rootVal(x.Call.Args[0]) == ssa.Value(r) && isBufIface(x.Call.Args[1]) {
 				tees = append(tees, x)
 				continue
 			}
@@ -458,7 +487,7 @@ func c08DecoderFor(c *Ctx) {
 			// must be element 1 of a MultiReader whose element 0 reads the buffer
 			okStore := false
 			for _, m := range multis {
-				if len(m.elems) == 2 && m.elems[1] == ssa.Value(r) && (isBufIface(m.elems[0]) || isBufBytesReader(m.elems[0])) {
+				if len(m.elems) == 2 && rootVal(m.elems[1]) == ssa.Value(r) && (isBufIface(m.elems[0]) || isBufBytesReader(m.elems[0])) {
 					okStore = true
 				}
 			}
@@ -485,7 +514,7 @@ func c08DecoderFor(c *Ctx) {
 		}
 	}
 	// buf: only Bytes() and interface conversions
-	for _, ref := range refs(buf) {
+	for _, ref := range usesOf(buf, 0) {
 		switch x := ref.(type) {
 		case *ssa.Call:
 			if n := callName(&x.Call); n != "(*bytes.Buffer).Bytes" {
@@ -498,7 +527,7 @@ func c08DecoderFor(c *Ctx) {
 	}
 	// trial decode and return
 	var trial *ssa.Call
-	eachInstr(fn, func(i ssa.Instruction) {
+	eachInstrI(fn, func(i ssa.Instruction) {
 		if isCallTo(i, "(lib.Decoder).Decode") {
 			trial = i.(*ssa.Call)
 		}
@@ -510,7 +539,26 @@ func c08DecoderFor(c *Ctx) {
 		mk, _ := trial.Call.Args[0].(*ssa.Call)
 		var factory ssa.Value
 		if mk != nil {
-			factory = mk.Call.Value
+			factory = rootVal(mk.Call.Value)
+		}
+		// the trial may live in a helper that reports `err == nil`: its call then stands for that test
+		var trialOK *ssa.Call
+		if trial.Parent() != fn {
+			if cs := singleSite(c.P, trial.Parent()); cs != nil && cs.Parent() == fn {
+				all, n := true, 0
+				eachInstr(trial.Parent(), func(j ssa.Instruction) {
+					if rt, isR := j.(*ssa.Return); isR {
+						n++
+						bo, isBo := rt.Results[0].(*ssa.BinOp)
+						if len(rt.Results) != 1 || !isBo || bo.Op != token.EQL || bo.X != ssa.Value(trial) || !isNilConst(bo.Y) {
+							all = false
+						}
+					}
+				})
+				if all && n > 0 {
+					trialOK = cs
+				}
+			}
 		}
 		eachInstr(fn, func(i ssa.Instruction) {
 			ret, ok := i.(*ssa.Return)
@@ -528,6 +576,9 @@ func c08DecoderFor(c *Ctx) {
 						okDom = true
 					}
 				}
+				if trialOK != nil && f.Cond == ssa.Value(trialOK) && f.Val {
+					okDom = true
+				}
 			}
 			if !okDom {
 				problems = append(problems, "a decoder is returned although the trial decode did not succeed")
@@ -539,7 +590,7 @@ func c08DecoderFor(c *Ctx) {
 			}
 			okArg := false
 			for _, m := range multis {
-				if call.Call.Args[0] == ssa.Value(m.call) && len(m.elems) == 2 && isBufIface(m.elems[0]) && m.elems[1] == ssa.Value(r) {
+				if call.Call.Args[0] == ssa.Value(m.call) && len(m.elems) == 2 && isBufIface(m.elems[0]) && rootVal(m.elems[1]) == ssa.Value(r) {
 					okArg = true
 				}
 			}
@@ -548,7 +599,7 @@ func c08DecoderFor(c *Ctx) {
 			}
 		})
 		// the trial decodes into a fresh Result
-		if al, isAl := trial.Call.Args[1].(*ssa.Alloc); !isAl || loopHeaderOf(al.Block()) == nil {
+		if al, isAl := trial.Call.Args[1].(*ssa.Alloc); !isAl || loopHeaderOf(liftBlock(al.Block(), fn)) == nil {
 			problems = append(problems, "the trial decode does not use a fresh Result per attempt")
 		}
 	}
